@@ -5,6 +5,7 @@ The prompt contains only the property text and one-line summaries of ideas alrea
 nothing else from /verif is given to the sub-agents."""
 import json, os, sys
 root = sys.argv[1]
+extra = sys.argv[2] if len(sys.argv) > 2 else ''
 props = {}
 for l in open('/verif/properties.jsonl'):
     p = json.loads(l); props[p['id']] = p
@@ -30,7 +31,7 @@ Your task: produce TWO different source changes ("mutant a" and "mutant b", in d
 The following ideas have ALREADY been used by others — do NOT reuse them or close variants; find different mechanisms, different code sites and different triggers:
 @USED@
 
-Read the code first (start from README.md and src/lib.rs; it is ~3 kLOC). Note that all registries (operators, functions, descriptors) are process-global statics, so integration tests in one file share them; use one #[test] per file or unique names where that matters.
+@EXTRA@Read the code first (start from README.md and src/lib.rs; it is ~3 kLOC). Note that all registries (operators, functions, descriptors) are process-global statics, so integration tests in one file share them; use one #[test] per file or unique names where that matters.
 
 Deliverables — write them under @ROOT@/@ID@/_out/a/ and @ROOT@/@ID@/_out/b/ (create the directories):
   - `patch.diff`: output of `git diff -- src Cargo.toml` for that mutant only, relative to the worktree's HEAD (so that `git apply patch.diff` on a clean checkout of HEAD reproduces it). It must NOT contain the demo file.
@@ -41,5 +42,5 @@ Work on one mutant at a time: make the change, run the existing suite (--lib and
 for i, p in props.items():
     prop = "%s — %s\n\nStatement: %s\n\nQuantified over: %s" % (i, p['title'], p['statement'], p['quantifier']['text'])
     u = "\n".join("  - " + x for x in used.get(i, []))
-    open('%s/%s.prompt.txt' % (root, i), 'w').write(base.replace('@ROOT@', root).replace('@ID@', i).replace('@PROP@', prop).replace('@USED@', u))
+    open('%s/%s.prompt.txt' % (root, i), 'w').write(base.replace('@ROOT@', root).replace('@ID@', i).replace('@PROP@', prop).replace('@USED@', u).replace('@EXTRA@', (extra + '\n\n') if extra else ''))
 print(len([f for f in os.listdir(root) if f.endswith('.prompt.txt')]), "prompts written")
